@@ -3,7 +3,7 @@ from vf.extract import FnC, Sel, Mod
 from vf.unit import Unit, Lemma
 from contracts import common as K
 
-P = ('C06', 'C01', 'C07', 'C12', 'C08', 'C14', 'C15', 'C16')
+P = ('C06', 'C01', 'C07', 'C12', 'C08', 'C14', 'C15', 'C16', 'C09', 'C10')
 
 FRAME = [('frame_s', ('C06', 'C07'), 'mut_ref_future(final(self).s) == mut_ref_future(old(self).s)'),
          ('frame_cipher', ('C06', 'C07'), 'final(self).cipher_backend == old(self).cipher_backend')]
